@@ -165,3 +165,13 @@ Example C08_concrete_example :
   forallb (sig_guard_b 1) (map (osig_of call2) [ex_c1; ex_c2]) = false.
 Proof. exact concrete_example. Qed.
 Print Assumptions C08_concrete_example.
+
+(* The overload loop itself is translated from the source on every run:
+   gen_is_overload (the `is_overload=` argument: last-overload rule), gen_step
+   (the if-chain on the CallReturn: is_error / remaining_arguments /
+   used_any_for_match with the any_rets / union_rets / union_and_any_rets
+   bookkeeping) and gen_after_loop; the loop assembled from them is the model. *)
+Theorem C08_check_call_loop_is_translated : forall sigs args anys uanys unions,
+  gen_loop sigs args anys uanys unions = loop sigs args anys uanys unions.
+Proof. exact gen_loop_is_model. Qed.
+Print Assumptions C08_check_call_loop_is_translated.
